@@ -531,8 +531,23 @@ class TdlImpulseResponse:
         # independently for each column (second dimension), which
         # corresponds to the second dimension is the time dimension (as the
         # channel response changes in time)
-        freq_response = np.fft.fft(
-            self._get_samples_including_the_extra_zeros(), fft_size, axis=0)
+        tap_values = self._get_samples_including_the_extra_zeros()
+        num_taps = tap_values.shape[0]
+        if num_taps > fft_size:
+            # The impulse response is longer than the FFT size. Sampling
+            # the frequency response in `fft_size` points corresponds to
+            # aliasing in the delay domain (tap `d` is added to tap
+            # `d mod fft_size`). Note that np.fft.fft would simply discard
+            # the taps from `fft_size` on.
+            num_blocks = -(-num_taps // fft_size)
+            padded = np.zeros((num_blocks * fft_size, ) + tap_values.shape[1:],
+                              dtype=complex)
+            padded[:num_taps] = tap_values
+            tap_values = np.sum(np.reshape(
+                padded, (num_blocks, fft_size) + tap_values.shape[1:]),
+                                axis=0)
+
+        freq_response = np.fft.fft(tap_values, fft_size, axis=0)
         return freq_response
 
     def __mul__(self, value: float) -> "TdlImpulseResponse":
